@@ -23,15 +23,16 @@ VARIANTS = {
     "pfe-cet": (["gcc", "-O1", "-fpatchable-function-entry=5", "-fcf-protection=full"], 5),
     "clang": (["clang", "-O1", "-fpatchable-function-entry=5"], 5),
     "fentry": (["gcc", "-O1", "-pg", "-mfentry", "-mnop-mcount", "-fno-pie", "-no-pie", "-fcf-protection=none"], 3),
+    "fentry-cet": (["gcc", "-O1", "-pg", "-mfentry", "-mnop-mcount", "-fno-pie", "-no-pie", "-fcf-protection=full"], 3),
 }
 
 
 def gen_program(rng, variant):
     names = rng.sample(NAMES, rng.choice([4, 5, 6, 7]))
-    nopatch = "__attribute__((no_instrument_function))" if variant == "fentry" else \
+    nopatch = "__attribute__((no_instrument_function))" if variant.startswith("fentry") else \
         "__attribute__((patchable_function_entry(0)))"
     funcs = []
-    src = ["#include <stdio.h>", "#include <string.h>", "#define NI __attribute__((noinline))",
+    src = ["#include <stdio.h>", "#include <string.h>", "#include <stdlib.h>", "#define NI __attribute__((noinline))",
            "extern char __executable_start;",
            "extern unsigned long __start___patchable_function_entries[] __attribute__((weak));",
            "extern unsigned long __stop___patchable_function_entries[] __attribute__((weak));",
@@ -63,6 +64,7 @@ NI void dump_all(void)
 	a = (unsigned long)dump_all; if (a < lo) lo = a; if (a > hi) hi = a;
 	a = (unsigned long)main; if (a < lo) lo = a; if (a > hi) hi = a;
 	hi += 48;
+	{ const char *z = getenv("UFTRACE_MIN_SIZE"); printf("Z %s\n", z ? z : "-"); }
 	printf("T %lu ", lo - (unsigned long)base);
 	for (a = lo; a < hi; a++) printf("%02x", *(unsigned char *)a);
 	printf("\n");
@@ -131,7 +133,7 @@ def build_program(ctx, prog, tag, fill=None):
 
 
 def parse_run(out):
-    r = {"R": None, "T": None, "PFE": [], "maps": []}
+    r = {"R": None, "T": None, "PFE": [], "maps": [], "Z": None}
     for l in out.splitlines():
         k = l.split()
         if not k:
@@ -140,6 +142,8 @@ def parse_run(out):
             r["R"] = l
         elif k[0] == "T" and len(k) == 3:
             r["T"] = (int(k[1]), bytes.fromhex(k[2]))
+        elif k[0] == "Z" and len(k) == 2:
+            r["Z"] = k[1]
         elif k[0] == "PFE":
             r["PFE"] = [int(x) for x in k[1:]]
         elif k[0] == "M" and len(k) == 4:
@@ -158,7 +162,7 @@ def run_case(ctx, objdir, prog, opts, ptype, minsz, tag):
     uft = os.path.join(objdir, "uftrace")
     exe = prog["exe"]
     if "native" not in prog:
-        rc, out, err = sh(["timeout", "20", exe], timeout=30)
+        rc, out, err = sh(["timeout", "20", exe], timeout=30, cwd=prog["dir"])      # -pg programs drop gmon.out
         prog["native"] = parse_run(out)
         prog["native_rc"] = rc
         if prog["native"]["T"] is None:
@@ -170,9 +174,9 @@ def run_case(ctx, objdir, prog, opts, ptype, minsz, tag):
         args += ["--match", "glob"]
     for k, a in opts:
         args += ["-P" if k == "P" else "-U", a]
-    if minsz:
-        args += ["-Z", str(minsz)]
-    rc, out, err = sh(args + [exe], timeout=60)
+    if minsz is not None:
+        args += ["-Z", minsz if isinstance(minsz, str) else str(minsz)]
+    rc, out, err = sh(args + [exe], timeout=60, cwd=prog["dir"])
     tr = parse_run(out)
     names = []
     if os.path.exists(os.path.join(dd, "info")):
@@ -189,17 +193,53 @@ def c_ecase(c):
     regok, tbl = base.oracle_tables(c)
     r, t = base.c_tables(regok, tbl)
     o = c["obs"]
-    return ("{| e_ptype := %s; e_funcs := %s; e_defmod := %s; e_regok := %s; e_tbl := %s; e_ty := %d; e_min := %d;\n"
+    return ("{| e_ptype := %s; e_funcs := %s; e_defmod := %s; e_regok := %s; e_tbl := %s; e_sect := %s; e_chk := %s; e_zarg := %s;\n"
             "   e_lib := %s; e_text_addr := %s; e_text_size := %s; e_next_mapped := %s; e_wbase := %d; e_before := %s;\n"
             "   e_syms := [%s]; e_targets := [%s];\n"
             "   o_died := %s; o_after := %s; o_traced := [%s]; o_same_output := %s; o_rc_same := %s; o_wx := %d; "
-            "o_tramp_perm := %s |}" % (
-                base.PT[c["ptype"]], base.cb(c["funcs"]), base.cb(c["defmod"]), r, t, c["ty"], c["min"],
+            "o_tramp_perm := %s; o_env := %s |}" % (
+                base.PT[c["ptype"]], base.cb(c["funcs"]), base.cb(c["defmod"]), r, t, "SectPatchable" if c["ty"] == 5 else "SectNone", base.cz(c["chk"]), base.cz(c["min"]),
                 base.cb(c["lib"]), base.cz(c["text_addr"]), base.cz(c["text_size"]), base.cbool(c["next_mapped"]),
                 c["wbase"], base.cb(c["before"]), ";".join(base.c_sym(s) for s in c["syms"]),
                 ";".join("%d" % a for a in c["targets"]),
                 base.cbool(o["died"]), base.cb(o["after"]), ";".join(base.cb(n) for n in o["traced"]),
-                base.cbool(o["same_output"]), base.cbool(o["rc_same"]), o["wx"], base.PERM[o["tramp_perm"]]))
+                base.cbool(o["same_output"]), base.cbool(o["rc_same"]), o["wx"], base.PERM[o["tramp_perm"]],
+                "None" if o["env"] is None else "(Some %s)" % base.cz(o["env"])))
+
+
+def zvalue(minsz):
+    """the number the user wrote after -Z (None: option not given)"""
+    if minsz is None:
+        return 0
+    return int(minsz, 0) if isinstance(minsz, str) else int(minsz)
+
+
+def env_value(txt):
+    if txt is None or txt == "-":
+        return None
+    try:
+        return int(txt)
+    except ValueError:
+        return -1
+
+
+# -Z values around every case split of the option parser and of libmcount's strtoul/unsigned
+Z_BOUNDARY = [1, 6, 7, 16, "0x20", 2147483647, 2147483648, 4294967295, 4294967296, 4294967297, 4294967312,
+              9223372036854775807, 9223372036854775808, 0, -1, -4294967295, -4294967280]
+
+
+def find_chk(h, prog):
+    """check_trace_functions() of the program's ELF through the in-process harness (irrelevant when the
+    patchable section decides)"""
+    if "chk" not in prog:
+        prog["chk"] = 0
+        if prog["ty"] != 5:
+            out = h.run(["FIND %s 0 cc 0" % base.hx(prog["exe"])])
+            k = out[0].split()
+            if k[0] != "FT":
+                raise RuntimeError("c14 harness (FIND on e2e program): %r" % out[:2])
+            prog["chk"] = int(k[2])
+    return prog["chk"]
 
 
 def make_case(ctx, h, prog, opts, ptype, minsz, res):
@@ -208,7 +248,7 @@ def make_case(ctx, h, prog, opts, ptype, minsz, res):
     tend = prog["text_addr"] + prog["text_size"]
     nextpg = (tend + 4095) // 4096 * 4096
     c = {"kind": "e2e", "ptype": ptype, "funcs": base.render(opts), "defmod": os.path.basename(prog["exe"]),
-         "lib": prog["exe"], "ty": prog["ty"], "min": minsz, "text_addr": prog["text_addr"],
+         "lib": prog["exe"], "ty": prog["ty"], "chk": find_chk(h, prog), "min": zvalue(minsz), "zarg": minsz, "text_addr": prog["text_addr"],
          "text_size": prog["text_size"], "next_mapped": perm_at(nat["maps"], nextpg) != "u",
          "wbase": wbase, "before": before,
          "syms": [s for s in prog["syms"] if wbase <= s[0] and s[0] + 9 <= wbase + len(before)],
@@ -227,6 +267,7 @@ def make_case(ctx, h, prog, opts, ptype, minsz, res):
                 "rc_same": res["rc"] == prog["native_rc"],
                 "wx": 0 if died else sum(1 for p, s, e in tr["maps"] if "w" in p[:3] and "x" in p[:3]),
                 "tramp_perm": "u" if died else perm_at(tr["maps"], tramp),
+                "env": env_value(tr["Z"]),
                 "rc": res["rc"], "args": res["args"], "stderr_tail": res["stderr_tail"]}
     names = [s[3] for s in c["syms"]]
     c["queries"] = [(c["lib"], None, n) for n in dict.fromkeys(names)]
@@ -274,9 +315,19 @@ def gen_optsets(rng, prog, n):
             opts.append((rng.choice("PPU"), pat))
         if not any(kk == "P" for kk, _ in opts) or rng.random() < 0.4:
             opts.insert(0, ("P", "." if ptype == 2 else "*"))
-        minsz = rng.choice([0, 0, 7, 12, 16, 30, 60])
+        minsz = rng.choice([None, None, 7, 12, 16, 30, 60, rng.choice(Z_BOUNDARY)])
         sets.append((opts, ptype, minsz))
     return sets
+
+
+def zclass(v):
+    if v <= 0:
+        return "<=0"
+    if v <= 2147483647:
+        return "=INT_MAX" if v == 2147483647 else ("<6" if v < 6 else "ordinary")
+    if v < 4294967296:
+        return "in(INT_MAX,2^32)"
+    return ">=2^32"
 
 
 def verdict(ctx, cases, res, witness_idx=None):
@@ -287,7 +338,7 @@ def verdict(ctx, cases, res, witness_idx=None):
         c = cases[i]
         ctx.violation("C14 violated end-to-end: `uftrace record %s` on a %s program - traced names, code bytes, output "
                       "or page permissions are not what the property allows"
-                      % (" ".join(c["obs"]["args"][4:-1]), c["variant"]),
+                      % (" ".join(c["obs"]["args"][7:]), c["variant"]),
                       {"mode": "e2e", "case": case_json(c), "source": c.get("source")}, True)
     mism = list(res["e_mismatch"])
     if mism and not viol:
@@ -317,6 +368,17 @@ def run(ctx, objdir, h):
                 c = make_case(ctx, h, prog, opts, ptype, minsz, res)
                 c["source"] = prog["src"]
                 cases.append(c)
+    # -Z boundary sweep on one patchable program (regression cases of "fix: size filter: do not wrap around")
+    zprog = build_program(ctx, gen_program(rng, "pfe"), "zsweep")
+    tend = zprog["text_addr"] + zprog["text_size"]
+    if not ((tend + 4095) // 4096 * 4096 - 16 < tend):
+        zs = Z_BOUNDARY if ctx.thorough() else [1, 16, 2147483647, 2147483648, 4294967297, 9223372036854775808, 0,
+                                               -4294967295, "0x20"]
+        for zi, z in enumerate(zs):
+            res = run_case(ctx, objdir, zprog, [("P", ".")], 2, z, "z%d" % zi)
+            c = make_case(ctx, h, zprog, [("P", ".")], 2, z, res)
+            c["source"] = zprog["src"]
+            cases.append(c)
     # dedicated witness of the trampoline-page defect: pad .text until the segment ends 7 bytes before a page end
     wit = None
     try:
@@ -346,7 +408,8 @@ def run(ctx, objdir, h):
         o = c["obs"]
         ctx.case(key=("e2e", c["variant"], c["funcs"], c["ptype"], c["min"], c["before"]),
                  nontrivial=(not o["died"]) and o["after"] != c["before"],
-                 tags=["e2e:" + c["variant"], "e2e:ptype=%d" % c["ptype"], "e2e:Z" if c["min"] else "e2e:noZ",
+                 tags=["e2e:" + c["variant"], "e2e:ptype=%d" % c["ptype"],
+                       "e2e:noZ" if c["zarg"] is None else "e2e:Z" + zclass(c["min"]),
                        "e2e:died" if o["died"] else "e2e:ran"] + (["e2e:witness-trampoline-page"] if i == wit else []),
                  sample={"args": o["args"][4:], "variant": c["variant"], "traced": o["traced"]}
                  if i < 2 else None, size=len(c["before"]))
@@ -362,8 +425,8 @@ def replay(ctx, objdir, h, obj):
     prog = {"variant": c0["variant"], "funcs": [], "src": obj["source"]}
     build_program(ctx, prog, "replay")
     opts = [tuple(o) for o in c0["opts"]]
-    res = run_case(ctx, objdir, prog, opts, c0["ptype"], c0["min"], "r")
-    c = make_case(ctx, h, prog, opts, c0["ptype"], c0["min"], res)
+    res = run_case(ctx, objdir, prog, opts, c0["ptype"], c0.get("zarg"), "r")
+    c = make_case(ctx, h, prog, opts, c0["ptype"], c0.get("zarg"), res)
     c["source"] = prog["src"]
     out = base.Out(h.run(base.pat_lines(c)))
     base.read_pat(out, c)
